@@ -218,10 +218,10 @@ def packet_identity_writers(ctx, prop):
                 recv = term(t.value)
                 n += 1
                 if recv == 'self':
-                    ok = not (f.cls is not None and f.cls.name == 'Packet' and whomay.root_callers(ctx.repo, f) != {'Packet.__init__'})
+                    ok = not (f.cls is not None and f.cls.name == 'Packet' and whomay.root_callers(ctx.repo, f, stop=('Packet.__init__',)) != {'Packet.__init__'})
                     why = 'own field of %s' % (f.cls.name if f.cls else '?')
                 else:
-                    ok = all((r, attr) in allowed_foreign for r in whomay.root_callers(ctx.repo, f))
+                    ok = all((r, attr) in allowed_foreign for r in whomay.root_callers(ctx.repo, f, stop=tuple(q for q, _ in allowed_foreign)))
                     why = allowed_foreign.get((f.qualname, attr), 'helper of the sender re-stamp')
                 ctx.ob(rule, ok)
                 if ok:
@@ -761,7 +761,7 @@ def copy_aliasing(ctx, prop):
     if init is None:
         raise AnalysisError('anchor vanished: Packet.__init__')
     mutable = []
-    init_nodes = [n for g in c.methods.values() if g.name == '__init__' or whomay.root_callers(ctx.repo, g) == {'Packet.__init__'}
+    init_nodes = [n for g in c.methods.values() if g.name == '__init__' or whomay.root_callers(ctx.repo, g, stop=('Packet.__init__',)) == {'Packet.__init__'}
                   for n in walk_local(g.node)]
     for node in init_nodes:
         if isinstance(node, (ast.Assign, ast.AnnAssign)):
